@@ -301,16 +301,22 @@ struct Cfg {
   int refuse = 0;     // manual executor
   int kind = 0;       // 0 man, 1 pool, 2 strand over strand (manual underneath), 3 man + re-entrant submit
   int stop = 0;       // pool: 0 none, 1 Stop, 2 HardStop, 3 SoftStop
+  int id = 0;         // unique per scenario
 };
 
 // once a scenario has produced this many failing executions the rest of its exploration is skipped (the verdict is
 // known and the first failures are the replays)
 int gFailedExecutions = 0;
+int gFailedScenario = -1;
 const int kMaxFailedExecutions = 50;
 
 void RunScenarioBody(Cfg cfg);
 
 void RunScenario(Cfg cfg) {
+  if (gFailedScenario != cfg.id) {
+    gFailedScenario = cfg.id;
+    gFailedExecutions = 0;
+  }
   if (gFailedExecutions >= kMaxFailedExecutions) {
     vrt::Fail("skipped: this scenario already failed " + std::to_string(kMaxFailedExecutions) + " times");
     return;
@@ -454,6 +460,7 @@ void BeforeNamedOnly(const volatile void* obj, const char* op) {
 
 int main(int argc, char** argv) {
   vrt::Main m(argc, argv);
+  int next_id = 0;
   gNamedOnly = m.Param("yields") == "named";
   yaclib::verif::gHooks.before = BeforeNamedOnly;
   const char* refuse_names[] = {"ok", "ref", "inl"};
@@ -468,6 +475,7 @@ int main(int argc, char** argv) {
           cfg.refuse = r;
           std::string name = "man/S" + std::to_string(s) + "J" + std::to_string(j) + "W" + std::to_string(w) + "/" +
                              refuse_names[r];
+          cfg.id = next_id++;
           m.Scenario(name, [=] {
             RunScenario(cfg);
           });
@@ -488,6 +496,7 @@ int main(int argc, char** argv) {
           cfg.stop = st;
           std::string name = "pool/S" + std::to_string(s) + "J" + std::to_string(j) + "W" + std::to_string(w) + "/" +
                              stop_names[st];
+          cfg.id = next_id++;
           m.Scenario(name, [=] {
             RunScenario(cfg);
           });
@@ -507,6 +516,7 @@ int main(int argc, char** argv) {
           cfg.refuse = r;
           std::string name = "ss/S" + std::to_string(s) + "J" + std::to_string(j) + "W" + std::to_string(w) + "/" +
                              refuse_names[r];
+          cfg.id = next_id++;
           m.Scenario(name, [=] {
             RunScenario(cfg);
           });
@@ -524,6 +534,7 @@ int main(int argc, char** argv) {
         cfg.workers = w;
         cfg.refuse = r;
         std::string name = "re/S" + std::to_string(s) + "J1W" + std::to_string(w) + "/" + refuse_names[r];
+        cfg.id = next_id++;
         m.Scenario(name, [=] {
           RunScenario(cfg);
         });
